@@ -37,9 +37,19 @@ fn dist_of(a: &Ans, k: &str) -> Option<f64> {
 
 /// `restricted` must be a sub-answer of `full`: same distance, and paths equal (all-paths mode),
 /// one of them (first_only) or empty (with_paths = false).
+thread_local! {
+    /// set while a graph with mixed magnitudes is checked in weighted mode: positive weights can be
+    /// absorbed there (d + w == d), which makes the *set* of equally short paths depend on the order
+    /// in which nodes of equal distance are settled; only keys and distances are compared then
+    static DIST_ONLY: std::cell::Cell<bool> = const { std::cell::Cell::new(false) };
+}
+
 fn sub_entry(full: &(u64, Vec<Vec<String>>), got: &(u64, Vec<Vec<String>>), fo: bool, wp: bool) -> Result<(), &'static str> {
     if full.0 != got.0 {
         return Err("distance_changed");
+    }
+    if DIST_ONLY.with(|d| d.get()) {
+        return Ok(());
     }
     if !wp {
         return if got.1.is_empty() { Ok(()) } else { Err("paths_not_empty") };
@@ -102,7 +112,7 @@ impl Prop for C08 {
         "C08"
     }
     fn rule(&self) -> String {
-        "graphs of all 8 kinds with n in 2..=10 (plus n in 21..=26 for the parallel path), positive dyadic / tie-rich weights or unweighted, weighted and hop-count mode. For every source the unrestricted all-paths answer U is the reference and the relations R1-R7 of DESIGN.md are checked: all_pairs == multi_source(all nodes) == single_source per node; target t (all nodes when n <= 5, else 3 sampled) x all 4 (first_only, with_paths) combinations; cutoffs {0, every distinct distance, every midpoint, max+1} (<= 6 sampled when more) x all 4 combinations; target and cutoff combined; symmetry and triangle inequality; get_all_shortest_paths_involving(x) for every x against an interior filter applied to the all-pairs answer. Non-trivial = the graph has a pair with >= 2 shortest paths, some cutoff both prunes and keeps an entry, and some target is reachable and is not the source; distinct = distinct serialised case.".into()
+        "graphs of all 8 kinds with n in 2..=10 (plus n in 21..=26 for the parallel path), positive dyadic / tie-rich weights, mixed magnitudes ((k+1) * 2^-70 next to k/4: tiny weights are absorbed by sums; keys and distances only are compared in that class) or unweighted, weighted and hop-count mode. For every source the unrestricted all-paths answer U is the reference and the relations R1-R7 of DESIGN.md are checked: all_pairs == multi_source(all nodes) == single_source per node; target t (all nodes when n <= 5, else 3 sampled) x all 4 (first_only, with_paths) combinations; cutoffs {0, every distinct distance, every midpoint, max+1} (<= 6 sampled when more) x all 4 combinations; target and cutoff combined; symmetry and triangle inequality; get_all_shortest_paths_involving(x) for every x against an interior filter applied to the all-pairs answer. Non-trivial = the graph has a pair with >= 2 shortest paths, some cutoff both prunes and keeps an entry, and some target is reachable and is not the source; distinct = distinct serialised case.".into()
     }
     fn assumptions(&self) -> Vec<String> {
         vec![
@@ -114,7 +124,7 @@ impl Prop for C08 {
         fn me(n: usize) -> usize {
             n * 3
         }
-        let small = graph_strategy(&ALL_KINDS, 2, 10, me, &[0, 1, 3, 3, 5, 6], 4);
+        let small = graph_strategy(&ALL_KINDS, 2, 10, me, &[0, 1, 3, 3, 5, 6, 11], 4);
         let large = graph_strategy(&ALL_KINDS, 21, 26, me, &[0, 3], 3);
         (prop_oneof![40 => small, 1 => large], any::<u64>()).prop_map(|(g, sel)| OptCase { g, sel }).boxed()
     }
@@ -139,6 +149,7 @@ impl Prop for C08 {
     }
     fn check(&self, case: &OptCase) -> Outcome {
         let mut out = Outcome::new();
+        DIST_ONLY.with(|d| d.set(false));
         poison_shortest_path_state(case.sel, 8);
         let ng = case.g.norm();
         let graph = ng.build();
@@ -169,6 +180,8 @@ impl Prop for C08 {
         }
         for weighted in modes {
             let mn = if weighted { "weighted" } else { "hops" };
+            let dist_only = weighted && case.g.wmode == 11;
+            DIST_ONLY.with(|d| d.set(dist_only));
             let mut full: Vec<Ans> = vec![];
             for s in 0..n {
                 let u = canon(&call!(format!("single_source[{}]", mn), dijkstra::single_source(&graph, weighted, names[s].clone(), None, None, false, true)));
@@ -382,7 +395,7 @@ impl Prop for C08 {
                 }
             }
             // R7: get_all_shortest_paths_involving
-            for x in 0..n {
+            for x in 0..if dist_only { 0 } else { n } {
                 out.api_calls += 1;
                 let got = match guard(|| dijkstra::get_all_shortest_paths_involving(&graph, names[x].clone(), weighted)) {
                     Ok(v) => v,
@@ -431,6 +444,7 @@ impl Prop for C08 {
                 }
             }
         }
+        DIST_ONLY.with(|d| d.set(false));
         out.class(format!("kind_{}", ng.spec().label()));
         out.class(format!("wmode_{}", case.g.wmode));
         out.class(if n <= 20 { "n<=10" } else { "n>20_parallel_path" });
